@@ -345,6 +345,8 @@ class _KalEval:
                 elts = v.elts if isinstance(v, ast.Tuple) else [v]
                 rets = [(e, self.ev(e)) for e in elts]
                 self.ret_node = st
+            elif isinstance(st, (ast.Assert, ast.Pass)):
+                pass                  # an assertion is assumed to hold (as in SymEval)
             else:
                 raise AnalysisError('kalman.%s: statement %s' % (self.f.name,
                                                                  type(st).__name__))
@@ -644,6 +646,8 @@ def vl_rules(ctx):
                            'block matrix exponential: not the exact transition / noise integral '
                            '(sub-steps do not compose)'
                            % (norm_text(r_.value)[:80] if r_.value is not None else 'None'))
+            continue
+        if isinstance(st, (ast.Assert, ast.Pass)):
             continue
         raise AnalysisError('Van Loan: statement `%s` not understood' % norm_text(st)[:60])
     ctx.need(big is not None and E is not None and ret is not None,
